@@ -81,11 +81,40 @@ Inductive obs :=
 | ObsRecent (v : option (list (Z * report)))
 | ObsSnap (s : snap).                             (* full snapshot taken here *)
 
+(* a disk image as found in a (copied) server directory, canonically rendered *)
+Record cdisk := { c_keys : bool; c_gca : option bytes; c_auths : option (list auth);
+                  c_reports : option (list report); c_stats : option (list cstats) }.
+
+(* what start-up on a crash image was observed to do *)
+Inductive lobs := LStarted (s : snap) | LRefused | LPanicked.
+
 Inductive hop :=
 | HOp (o : op) (ob : obs)
 | HSync (id : Z) (ob : obs)
 | HRecent (key : bytes) (ob : obs)
-| HSnap (s : snap).
+| HSnap (s : snap)
+| HLoad (dk : cdisk) (now : Z) (ob : lobs).    (* start-up on a crash image; the running history is not affected *)
+
+Definition uncanon_stats (c : cstats) : stats :=
+  {| st_devs := map (fun d => {| ds_key := fst (fst d); ds_power := snd (fst d); ds_impact := snd d |}) (snd c);
+     st_tso := fst c; st_sig := [] |}.
+
+Definition disk_of (tk : bytes) (fresh : bytes * bytes) (c : cdisk) : disk :=
+  {| d_keys := if c_keys c then Some fresh else None; d_temp := Some tk; d_gca := c_gca c;
+     d_auths := c_auths c; d_reports := c_reports c; d_stats := option_map (map uncanon_stats) (c_stats c) |}.
+
+(* the snapshot of a freshly started server on a copy: the keys file of the copy is compared
+   only for presence, the report log may have grown by re-appended reports (compared exactly) *)
+Definition load_matches (t : sigtable) (tk : bytes) (fresh : bytes * bytes) (c : cdisk) (now : Z) (ob : lobs) : bool :=
+  match load (tverify t) (disk_of tk fresh c) fresh with
+  | LOk st0 =>
+      match catch_up nosign nosb (catchup_fuel now) st0 now, ob with
+      | (st1, Quiet), LStarted s => snap_ok st1 s
+      | _, _ => false
+      end
+  | LErr => match ob with LRefused => true | _ => false end
+  | LPanic => match ob with LPanicked => true | _ => false end
+  end.
 
 Definition out_matches (o : out) (ob : obs) : bool :=
   match o, ob with
@@ -102,24 +131,25 @@ Definition sync_eqb (a b : bytes * Z * list Z) : bool :=
   list_eqb Z.eqb (fold_right zins1 [] (snd a)) (snd b).
 
 (* runs a history; returns the index of the first disagreeing step, if any *)
-Fixpoint run_hist (t : sigtable) (st : state) (h : list hop) (i : nat) : option nat :=
+Fixpoint run_hist (t : sigtable) (tk : bytes) (fresh : bytes * bytes) (st : state) (h : list hop) (i : nat) : option nat :=
   match h with
   | [] => None
+  | HLoad c now ob :: h' => if load_matches t tk fresh c now ob then run_hist t tk fresh st h' (S i) else Some i
   | HOp o ob :: h' =>
       let '(st', out) := step (tverify t) nosign nosb st o in
-      if out_matches out ob then run_hist t st' h' (S i) else Some i
+      if out_matches out ob then run_hist t tk fresh st' h' (S i) else Some i
   | HSync id ob :: h' =>
       match ob with
-      | ObsSync v => if opt_eqb sync_eqb (sync_view st id) v then run_hist t st h' (S i) else Some i
+      | ObsSync v => if opt_eqb sync_eqb (sync_view st id) v then run_hist t tk fresh st h' (S i) else Some i
       | _ => Some i
       end
   | HRecent k ob :: h' =>
       match ob with
       | ObsRecent v => if opt_eqb (list_eqb idxrep_eqb) (option_map zsort (recent_view st k)) v
-                       then run_hist t st h' (S i) else Some i
+                       then run_hist t tk fresh st h' (S i) else Some i
       | _ => Some i
       end
-  | HSnap s :: h' => if snap_ok st s then run_hist t st h' (S i) else Some i
+  | HSnap s :: h' => if snap_ok st s then run_hist t tk fresh st h' (S i) else Some i
   end.
 
 (* a case: signature table, temp key, first-start (fresh keys, clock), history *)
@@ -130,7 +160,7 @@ Definition scase_result (c : scase) : option nat :=
   match load (tverify t) (fresh_disk tk) fresh with
   | LOk st0 =>
       match catch_up nosign nosb (catchup_fuel now0) st0 now0 with
-      | (st1, Quiet) => run_hist t st1 h 0
+      | (st1, Quiet) => run_hist t tk fresh st1 h 0
       | _ => Some 0%nat
       end
   | _ => Some 0%nat
